@@ -65,7 +65,11 @@ from ..flow import path_search, describe_path
 from ..c01_util import edge_guards
 
 # (rule, key, explanation) of genuine defects of the pristine tree this module reports (none known for C01)
-KNOWN = []
+KNOWN = [
+    ('reader-decompressor-honours-compression', 'osmium::io::Reader::make_decompressor#osmium::io::DummyDecompressor',
+     'F19: Reader::make_decompressor() takes the DummyDecompressor for every PBF file read from a file descriptor and ignores '
+     'file.compression(); the Writer compresses t.osm.pbf.gz / t.osm.pbf.bz2, reading them back throws "invalid BlobHeader size"'),
+]
 
 EXPLANATION = (
     'Decided: (1) PBF codec tables -- every (message, field) pbf_output_format.hpp can emit has a consuming case in '
@@ -190,7 +194,7 @@ def pbf_table_rules(fb, R):
                 if spec.packed:
                     rflags = {x.delta for x in c.packed}
                 else:
-                    rflags = {codec.enclosing_call(c.fn, c.scalar_node, codec.DELTA_DEC) is not None} if c.scalar is not None else set()
+                    rflags = {codec.enclosing_call(getattr(c, 'scalar_fn', c.fn), c.scalar_node, codec.DELTA_DEC) is not None} if c.scalar is not None else set()
                 if not rflags or not wflags:
                     continue  # reported by the kind rules
                 ok = len(wflags) == 1 and len(rflags) == 1 and wflags == rflags
@@ -1161,7 +1165,7 @@ def pbf_pairing_rules(fb, R, em, dc):
     for c in dc:
         s = set()
         if c.scalar is not None:
-            s |= U.value_sinks(fb, c.fn, c.scalar_node)
+            s |= U.value_sinks(fb, getattr(c, 'scalar_fn', c.fn), c.scalar_node, ret_to=getattr(c, 'scalar_stack', ()))
         for x in c.packed:
             s |= U.value_sinks(fb, x.fn, x.node)
         sinks.setdefault((c.msg, c.num), []).append((c, s))
@@ -1239,8 +1243,9 @@ def delta_width_rules(fb, R, em, dc):
             continue
         need = PROTO_WIDTH[spec.ptype]
         nodes = [(x.fn, x.node) for x in c.packed if x.delta]
-        if c.scalar is not None and codec.enclosing_call(c.fn, c.scalar_node, codec.DELTA_DEC) is not None:
-            nodes.append((c.fn, c.scalar_node))
+        sf = getattr(c, 'scalar_fn', c.fn)
+        if c.scalar is not None and codec.enclosing_call(sf, c.scalar_node, codec.DELTA_DEC) is not None:
+            nodes.append((sf, c.scalar_node))
         for (f, nid) in nodes:
             call = codec.enclosing_call(f, nid, codec.DELTA_DEC)
             vt, dt = _coder_types(fb, f, call)
@@ -1314,6 +1319,18 @@ def writer_order_rules(fb, R):
     if not flushers:
         R.broken('%s: no function hands the pending buffer %s to OutputFormat::write_buffer (do_flush shape not recognised)' % (W, pend[0]['name']))
         return
+
+    # a method that calls a flusher on every path is a flusher itself (extracted helper `flush_pending()`)
+    changed = True
+    while changed:
+        changed = False
+        for m in methods:
+            if m.usr in flushers or m.usr in forwarders:
+                continue
+            ids = {c['id'] for c in m.all_nodes() if c.get('k') == 'call' and c.get('u') in flushers and c['id'] in m.positions()}
+            if ids and path_search(m, m.entry, lambda x: isinstance(x, tuple) and x[0] == 'exit', lambda x: x in ids, from_block_start=True) is None:
+                flushers.add(m.usr)
+                changed = True
 
     def flush_sites(f):
         out = []
@@ -1405,6 +1422,160 @@ def writer_order_rules(fb, R):
                     'ensure_cleanup must invoke the function it is given on every non-throwing path: %s' % describe_path(m, w))
 
 
+# ================================================================================================ compression layer
+
+def _is_compression_none_test(fn, cond, sense):
+    """Does branch outcome (cond, sense) establish file.compression() == file_compression::none?"""
+    n = codec.through_locals(fn, cond)
+    if n is None or n.get('k') != 'binop' or n['op'] not in ('==', '!='):
+        return False
+    sides = [codec.through_locals(fn, n['lhs']), codec.through_locals(fn, n['rhs'])]
+    has_call = any(x is not None and x.get('k') == 'call' and x.get('q') == 'osmium::io::File::compression' for x in sides)
+    has_none = any(x is not None and x.get('k') == 'var' and x.get('q') == 'osmium::io::file_compression::none' for x in sides)
+    if not (has_call and has_none):
+        return False
+    return sense if n['op'] == '==' else (not sense)
+
+
+def _passes_file_compression(fn, arg):
+    n = codec.through_locals(fn, arg)
+    return n is not None and n.get('k') == 'call' and n.get('q') == 'osmium::io::File::compression'
+
+
+def _bodies_of_class(fb, cls):
+    out = []
+    for m in fb.functions:
+        if m.has_cfg and m.cls == cls and not m.is_lambda:
+            out.append((m, m))
+            for g in fb.lambdas_in(m):
+                out.append((g, m))
+    return out
+
+
+def compression_layer_rules(fb, R):
+    """Writer and Reader must put the same compression layer around every format: both obtain it from the CompressionFactory for
+    file.compression(); a hand-made (de)compressor is only acceptable where file.compression() is known to be `none`; the parser
+    reads the file descriptor itself only when the decompressor is not a real one."""
+    F = 'osmium::io::CompressionFactory::'
+    for (cls, base, factory, rule) in (('osmium::io::Reader', 'osmium::io::Decompressor', F + 'create_decompressor', 'reader-decompressor-honours-compression'),
+                                       ('osmium::io::Writer', 'osmium::io::Compressor', F + 'create_compressor', 'writer-compressor-honours-compression')):
+        derived = {r.q for r in fb.derived_from(base)}
+        bodies = _bodies_of_class(fb, cls)
+        if not bodies:
+            R.broken('no body of %s found' % cls)
+            continue
+        nfac = 0
+        for (f, m) in bodies:
+            for c in f.all_nodes():
+                if c.get('k') == 'call' and c.get('q') == factory and c.get('args'):
+                    nfac += 1
+                    R.check(_passes_file_compression(f, c['args'][0]), rule, '%s#%s/%d' % (m.q, factory.rsplit('::', 1)[-1], len(c['args'])), f.loc(c['id']),
+                            '%s asks the CompressionFactory for `%s` instead of file.compression(): the other side of the round trip uses the '
+                            'compression of the file' % (m.q, f.expr(c['args'][0])))
+                elif c.get('k') == 'construct' and c.get('rcls') in derived and not c.get('copymove'):
+                    gs = edge_guards(f, c['id'])
+                    ok = any(_is_compression_none_test(f, g, s) for (g, s, _b) in gs)
+                    R.check(ok, rule, '%s#%s' % (m.q, c['rcls']), f.loc(c['id']),
+                            '%s creates a %s without consulting file.compression() (guards: %s): a file with a compression suffix is %s'
+                            % (m.q, c['rcls'], ', '.join('%s%s' % ('' if s else '!', f.expr(g)) for (g, s, _b) in gs) or 'none',
+                               'handed to the parser still compressed although the Writer compressed it' if cls.endswith('Reader')
+                               else 'written uncompressed although the Reader will decompress it'))
+        if nfac == 0:
+            R.broken('%s never calls %s' % (cls, factory))
+
+    # ---- the parser gets the file descriptor only when the decompressor does not read from it
+    RD = 'osmium::io::Reader'
+    rec = fb.record(RD)
+    fdq = None
+    if rec is not None:
+        ints = [x for x in rec.fields if x['tC'] == 'int']
+        # the descriptor member is the int handed to the decompressor factory function
+        for (f, m) in _bodies_of_class(fb, RD):
+            for c in f.all_nodes():
+                if c.get('k') == 'call' and c.get('q', '').startswith(RD + '::') and c.get('args'):
+                    for g in fb.by_usr.get(c.get('u'), []):
+                        if g.has_cfg and any(x.get('k') == 'call' and x.get('q') == F + 'create_decompressor' for x in g.all_nodes()):
+                            for a in c['args']:
+                                r = f.root_var(a)
+                                if r is not None and r[0] == 'field' and any(x['q'] == r[1] for x in ints):
+                                    fdq = r[1]
+    if fdq is None:
+        R.broken('%s: cannot identify the file descriptor member (the int handed to the function that creates the decompressor)' % RD)
+        return
+    nth = 0
+    for (f, m) in _bodies_of_class(fb, RD):
+        for c in f.all_nodes():
+            if c.get('k') != 'construct' or c.get('rcls') != 'osmium::thread::thread_handler' or not c.get('args'):
+                continue
+            # m_fd references that flow into the thread's arguments (directly or through a local)
+            refs = []
+            seen = set()
+            work = list(c['args'])
+            while work:
+                a = work.pop()
+                for x in f.subtree(a):
+                    if x in seen:
+                        continue
+                    seen.add(x)
+                    n = f.nodes[x]
+                    if n.get('k') == 'member' and n.get('q') == fdq:
+                        refs.append(x)
+                    elif n.get('k') == 'var' and n.get('vk', 'local') == 'local':
+                        d = n.get('d')
+                        for y in f.all_nodes():
+                            if y.get('k') == 'decl':
+                                for v in y['vars']:
+                                    if v['d'] == d and isinstance(v.get('init'), int):
+                                        work.append(v['init'])
+                            elif y.get('k') == 'assign' and (f.sn(y['lhs']) or {}).get('d') == d and (f.sn(y['lhs']) or {}).get('k') == 'var':
+                                work.append(y['rhs'])
+            if not refs:
+                continue
+            nth += 1
+            bad = []
+            for x in refs:
+                if not _fd_protected(f, x):
+                    bad.append(f.loc(x))
+            R.check(not bad, 'reader-fd-for-parser-only-if-not-real', '%s#fd_for_parser' % m.q, f.loc(c['id']),
+                    '%s hands the file descriptor to the parser thread also when the decompressor is a real one and reads from the same '
+                    'descriptor (unprotected use at %s)' % (m.q, ', '.join(bad)))
+    if nth == 0:
+        R.broken('%s: no parser thread that receives the file descriptor found' % RD)
+
+
+def _fd_protected(f, x):
+    """Is the use of the descriptor at node x reached only when Decompressor::is_real() answered false?"""
+    IS_REAL = 'osmium::io::Decompressor::is_real'
+
+    def polarity(cond):
+        """True if cond true means is_real, False if cond true means not real, None otherwise."""
+        n = codec.through_locals(f, cond)
+        neg = False
+        while n is not None and n.get('k') == 'unop' and n['op'] == '!':
+            neg = not neg
+            n = codec.through_locals(f, n['sub'])
+        if n is not None and n.get('k') == 'call' and n.get('q') == IS_REAL:
+            return not neg
+        return None
+    pm = f.parent_map()
+    y = x
+    hops = 0
+    while y in pm and hops < 30:
+        p = f.nodes[pm[y]]
+        hops += 1
+        if p.get('k') == 'condop':
+            pol = polarity(p['cond'])
+            if pol is not None:
+                if (y == p.get('else') and pol) or (y == p.get('then') and not pol):
+                    return True
+        y = p['id']
+    for (g, s, _b) in edge_guards(f, x):
+        pol = polarity(g)
+        if pol is not None and (pol != s):
+            return True
+    return False
+
+
 # ================================================================================================ driver
 
 def run(ctx):
@@ -1418,6 +1589,7 @@ def run(ctx):
             pbf_pairing_rules(fb, R, tabs[0], tabs[1])
             delta_width_rules(fb, R, tabs[0], tabs[1])
         writer_order_rules(fb, R)
+        compression_layer_rules(fb, R)
         metadata_option_rules(fb, R)
         block_limit_rules(fb, R)
         block_switch_rules(fb, R)
@@ -1436,6 +1608,9 @@ def run(ctx):
         ('writer-full-buffer-flushed-before-retry', 1),  # Writer::operator()(const Item&), buffer_is_full handler
         ('writer-pending-flushed-before-end', 1),        # Writer::do_close
         ('writer-flush-entry-points', 2),                # Writer::flush, Writer::ensure_cleanup
+        ('reader-decompressor-honours-compression', 3),  # make_decompressor: 2 factory calls + DummyDecompressor
+        ('writer-compressor-honours-compression', 1),    # Writer constructor
+        ('reader-fd-for-parser-only-if-not-real', 1),    # Reader constructor
         ('dense-column-gates-agree', 10),        # the 10 vector members of DenseNodes
         ('dense-columns-parallel', 10),
         ('info-field-gated-by-own-option', 16),  # 6 Info + 6 DenseInfo fields, 3 Info + 1 DenseInfo containers
@@ -1466,6 +1641,10 @@ def _st_writer(fb, R):
     writer_order_rules(fb, R)
 
 
+def _st_compress(fb, R):
+    compression_layer_rules(fb, R)
+
+
 def _st_block(fb, R):
     block_limit_rules(fb, R)
     block_switch_rules(fb, R)
@@ -1488,6 +1667,9 @@ SELFTESTS = [
     ('writer-full-buffer-flushed-before-retry', 'c01_writer.cpp', _st_writer),
     ('writer-pending-flushed-before-end', 'c01_writer.cpp', _st_writer),
     ('writer-flush-entry-points', 'c01_writer.cpp', _st_writer),
+    ('reader-decompressor-honours-compression', 'c01_compress.cpp', _st_compress),
+    ('writer-compressor-honours-compression', 'c01_compress.cpp', _st_compress),
+    ('reader-fd-for-parser-only-if-not-real', 'c01_compress.cpp', _st_compress),
     ('info-field-gated-by-own-option', 'c01_codec.cpp', _st_codec),
     ('dense-column-gates-agree', 'c01_codec.cpp', _st_codec),
     ('dense-columns-parallel', 'c01_codec.cpp', _st_codec),
